@@ -246,7 +246,7 @@ def run(ctx):
         raise AnalysisError("anchor vanished: _PackageLoader / PackageReader")
     n_deref = 0
 
-    def check_fn(f, map_pred, label, must=1):
+    def check_fn(f, map_pred, label, must=1, guard_pred=None, why=None):
         nonlocal n_deref
         from sa.inline import expand as _exp
         from sa.itersrc import source_of as _so
@@ -262,7 +262,7 @@ def run(ctx):
                         out_.append((gen.target.id, a_[2]))
             return out_
 
-        ds = derefs(fx_, map_pred, iter_facts)
+        ds = derefs(fx_, map_pred, iter_facts, guard_pred)
         if len(ds) < must:
             ctx.error("%s.%s" % (f.cls.name if f.cls else "", f.name), "expected a keyed read of %s" % label)
             return
@@ -271,6 +271,8 @@ def run(ctx):
             key = "%s:%s[%s]" % (f.qualname, m, k)
             if guarded:
                 ctx.ok("R16.1", key, sample={"deref": "%s[%s]" % (m, k), "guard": "%s in %s" % (k, m), "site": "%s:%d" % (f.file, node.lineno)})
+            elif why is not None:
+                ctx.violation("R16.1", key, why % {"m": m, "k": k}, file=f.file, line=node.lineno)
             else:
                 ctx.violation("R16.1", key, "`%s[%s]` is read without a dominating `%s in %s`: a package lacking that member fails "
                               "with KeyError instead of being tolerated" % (m, k, k, m), file=f.file, line=node.lineno)
@@ -279,6 +281,11 @@ def run(ctx):
     if pf is None:
         raise AnalysisError("anchor vanished: _PackageLoader._parts")
     check_fn(pf, lambda m: m.endswith("_package_reader"), "the package reader")
+    # the content type of a relationship target is looked up only once the target is known to be a member of the package: the
+    # content-types item need not describe a name that is not there (a dangling target without extension has no Default)
+    check_fn(pf, lambda m: m.endswith("_content_types"), "the content-type map", guard_pred=lambda m: m.endswith("_package_reader"),
+             why="`%(m)s[%(k)s]` is evaluated before `%(k)s` is known to be a member of the package: a dangling relationship target "
+                 "whose type is not declared fails with KeyError instead of being skipped")
     rx = rdr.methods.get("rels_xml_for")
     if rx is None:
         raise AnalysisError("anchor vanished: PackageReader.rels_xml_for")
